@@ -12,3 +12,4 @@ import Gomjml.Props.C10
 #print axioms Gomjml.Props.C10.C10_leaf_fills
 #print axioms Gomjml.Props.C10.C10_column_content
 #print axioms Gomjml.Props.C10.C10_explicit_width_clamped
+#print axioms Gomjml.Props.C10.C10_length_sites
